@@ -69,3 +69,355 @@
         assert(Seq::new(components@.len(), |i: int| str_bytes(components@[i]@)) =~= seq![Seq::<u8>::empty()] + st);
     }
 //@ end
+
+// ===================== C09: canonicalisation is idempotent (spec-level lemmas over the contract of canonicalize_uri_path) =====================
+pub open spec fn no_byte(s: Seq<u8>, b: u8) -> bool { forall|i: int| 0 <= i < s.len() ==> s[i] != b }
+pub open spec fn fixed_point(n: Seq<u8>) -> bool { normal_form(n, false) == Some(n) && no_byte(n, 0x2f) }
+pub open spec fn all_fixed(st: Seq<Seq<u8>>) -> bool { forall|i: int| 0 <= i < st.len() ==> fixed_point(#[trigger] st[i]) }
+
+pub proof fn lemma_encode_no_slash(d: Seq<u8>)
+    ensures no_byte(encode(d), 0x2f)
+    decreases d.len()
+{
+    if d.len() > 0 {
+        lemma_encode_no_slash(d.subrange(1, d.len() as int));
+        let e = enc1(d[0]);
+        let r = encode(d.subrange(1, d.len() as int));
+        assert forall|i: int| 0 <= i < (e + r).len() implies (e + r)[i] != 0x2f by {
+            if i < e.len() { assert((e + r)[i] == e[i]); } else { assert((e + r)[i] == r[i - e.len()]); }
+        }
+    }
+}
+/// every normal form is a fixed point of normalisation and contains no '/'
+pub proof fn lemma_normal_form_is_fixed_point(s: Seq<u8>)
+    requires normal_form(s, false) is Some
+    ensures fixed_point(normal_form(s, false)->Some_0)
+{
+    lemma_normal_form_fixed_point(s, false);
+    lemma_encode_no_slash(decode_from(s, 0, false)->Some_0);
+}
+pub proof fn lemma_split_append_piece(a: Seq<u8>, b: Seq<u8>, sep: u8)
+    requires no_byte(b, sep)
+    ensures split(a + seq![sep] + b, sep) == split(a, sep).push(b)
+    decreases b.len()
+{
+    reveal_with_fuel(split, 2);
+    let s = a + seq![sep] + b;
+    if b.len() == 0 {
+        assert(s.drop_last() =~= a);
+        assert(s.last() == sep);
+        assert(b =~= Seq::<u8>::empty());
+    } else {
+        lemma_split_append_piece(a, b.drop_last(), sep);
+        assert(s.drop_last() =~= a + seq![sep] + b.drop_last());
+        assert(s.last() == b.last());
+        let rest = split(s.drop_last(), sep);
+        assert(rest == split(a, sep).push(b.drop_last()));
+        assert(rest.drop_last() =~= split(a, sep));
+        assert(rest.last() == b.drop_last());
+        assert(b.drop_last().push(b.last()) =~= b);
+    }
+}
+/// split undoes join when no part contains the separator
+pub proof fn lemma_split_join(parts: Seq<Seq<u8>>, sep: u8)
+    requires parts.len() >= 1, forall|i: int| 0 <= i < parts.len() ==> no_byte(#[trigger] parts[i], sep)
+    ensures split(join(parts, seq![sep]), sep) == parts
+    decreases parts.len()
+{
+    reveal_with_fuel(join, 2);
+    reveal_with_fuel(split, 2);
+    if parts.len() == 1 {
+        lemma_split_single(parts[0], sep);
+        assert(parts =~= seq![parts[0]]);
+    } else {
+        lemma_split_join(parts.drop_last(), sep);
+        lemma_split_append_piece(join(parts.drop_last(), seq![sep]), parts.last(), sep);
+        assert(parts.drop_last().push(parts.last()) =~= parts);
+    }
+}
+pub proof fn lemma_split_single(b: Seq<u8>, sep: u8)
+    requires no_byte(b, sep)
+    ensures split(b, sep) == seq![b]
+    decreases b.len()
+{
+    reveal_with_fuel(split, 2);
+    if b.len() > 0 {
+        lemma_split_single(b.drop_last(), sep);
+        assert(b.drop_last().push(b.last()) =~= b);
+        assert(seq![b.drop_last()].drop_last().push(b.drop_last().push(b.last())) =~= seq![b]);
+    } else {
+        assert(b =~= Seq::<u8>::empty());
+    }
+}
+/// in S3 mode every segment that is already a fixed point is pushed unchanged
+pub proof fn lemma_resolve_fixed_s3(segs: Seq<Seq<u8>>, i: int, stack: Seq<Seq<u8>>)
+    requires 0 <= i <= segs.len(), forall|j: int| i <= j < segs.len() ==> fixed_point(#[trigger] segs[j])
+    ensures resolve(segs, i, stack, true) == Some(stack + segs.subrange(i, segs.len() as int))
+    decreases segs.len() - i
+{
+    if i >= segs.len() {
+        assert(stack + segs.subrange(i, segs.len() as int) =~= stack);
+    } else {
+        lemma_resolve_fixed_s3(segs, i + 1, stack.push(segs[i]));
+        assert(stack.push(segs[i]) + segs.subrange(i + 1, segs.len() as int) =~= stack + segs.subrange(i, segs.len() as int));
+    }
+}
+/// whatever resolve returns consists of fixed points (given the stack it started from does)
+pub proof fn lemma_resolve_all_fixed(segs: Seq<Seq<u8>>, i: int, stack: Seq<Seq<u8>>, s3: bool)
+    requires 0 <= i <= segs.len(), all_fixed(stack), resolve(segs, i, stack, s3) is Some
+    ensures all_fixed(resolve(segs, i, stack, s3)->Some_0)
+    decreases segs.len() - i
+{
+    if i < segs.len() {
+        let n = normal_form(segs[i], false)->Some_0;
+        lemma_normal_form_is_fixed_point(segs[i]);
+        if !s3 && n == DOT() {
+            lemma_resolve_all_fixed(segs, i + 1, stack, s3);
+        } else if !s3 && n == DOTDOT() {
+            lemma_resolve_all_fixed(segs, i + 1, stack.drop_last(), s3);
+        } else {
+            lemma_resolve_all_fixed(segs, i + 1, stack.push(n), s3);
+        }
+    }
+}
+/// C09 (S3 mode): canonicalising a canonical path changes nothing
+pub proof fn lemma_canon_path_idempotent_s3(p: Seq<u8>)
+    requires canon_path(p, true) is Some
+    ensures canon_path(canon_path(p, true)->Some_0, true) == canon_path(p, true) //# C09 name=idempotent_in_s3_mode
+{
+    let c = canon_path(p, true)->Some_0;
+    if p.len() == 0 || p == SLASH() {
+    } else {
+        let segs = split(p, 0x2f);
+        lemma_split_basic(p, 0x2f);
+        let st = resolve(segs, 1, Seq::empty(), true)->Some_0;
+        lemma_resolve_all_fixed(segs, 1, Seq::empty(), true);
+        if st.len() == 0 {
+        } else {
+            let parts = seq![Seq::<u8>::empty()] + st;
+            assert(c == join(parts, SLASH()));
+            assert forall|i: int| 0 <= i < parts.len() implies no_byte(#[trigger] parts[i], 0x2f) by {
+                if i > 0 { assert(parts[i] == st[i - 1]); }
+            }
+            lemma_split_join(parts, 0x2f);
+            lemma_join_first_slash(parts);
+            if c == SLASH() {
+            } else {
+                let segs2 = split(c, 0x2f);
+                assert(segs2 == parts);
+                assert forall|j: int| 1 <= j < segs2.len() implies fixed_point(#[trigger] segs2[j]) by { assert(segs2[j] == st[j - 1]); }
+                lemma_resolve_fixed_s3(segs2, 1, Seq::empty());
+                assert(Seq::<Seq<u8>>::empty() + segs2.subrange(1, segs2.len() as int) =~= st);
+            }
+        }
+    }
+}
+/// join of [""] ++ st (st non-empty) starts with '/'
+pub proof fn lemma_join_first_slash(parts: Seq<Seq<u8>>)
+    requires parts.len() >= 2, parts[0].len() == 0
+    ensures join(parts, SLASH()).len() > 0, join(parts, SLASH())[0] == 0x2f
+    decreases parts.len()
+{
+    reveal_with_fuel(join, 3);
+    if parts.len() == 2 {
+        assert(parts.drop_last() =~= seq![parts[0]]);
+        assert(join(parts, SLASH()) =~= parts[0] + SLASH() + parts[1]);
+    } else {
+        lemma_join_first_slash(parts.drop_last());
+        assert(parts.drop_last()[0] == parts[0]);
+    }
+}
+
+// ---- standard mode ----
+pub open spec fn no_double_slash(s: Seq<u8>) -> bool { forall|i: int| 0 <= i < s.len() - 1 ==> !(#[trigger] s[i] == 0x2f && s[i + 1] == 0x2f) }
+pub proof fn lemma_collapse_no_double(p: Seq<u8>)
+    ensures no_double_slash(collapse_slashes(p))
+    decreases p.len()
+{
+    reveal_with_fuel(collapse_slashes, 2);
+    if p.len() > 0 {
+        lemma_collapse_no_double(p.drop_last());
+        lemma_collapse_slashes_basic(p.drop_last());
+        let c0 = collapse_slashes(p.drop_last());
+        if p.len() >= 2 && p.last() == 0x2f && p[p.len() - 2] == 0x2f {
+        } else {
+            let c = c0.push(p.last());
+            assert forall|i: int| 0 <= i < c.len() - 1 implies !(#[trigger] c[i] == 0x2f && c[i + 1] == 0x2f) by {
+                if i < c0.len() - 1 { assert(c[i] == c0[i] && c[i + 1] == c0[i + 1]); }
+                else { assert(c[i] == c0.last()); assert(p.drop_last().last() == p[p.len() - 2]); }
+            }
+        }
+    }
+}
+pub proof fn lemma_collapse_identity(s: Seq<u8>)
+    requires no_double_slash(s)
+    ensures collapse_slashes(s) == s
+    decreases s.len()
+{
+    reveal_with_fuel(collapse_slashes, 2);
+    if s.len() > 0 {
+        assert(no_double_slash(s.drop_last())) by {
+            assert forall|i: int| 0 <= i < s.drop_last().len() - 1 implies !(#[trigger] s.drop_last()[i] == 0x2f && s.drop_last()[i + 1] == 0x2f) by {
+                assert(s.drop_last()[i] == s[i] && s.drop_last()[i + 1] == s[i + 1]);
+            }
+        }
+        lemma_collapse_identity(s.drop_last());
+        if s.len() >= 2 { assert(!(s[s.len() - 2] == 0x2f && s[s.len() - 2 + 1] == 0x2f)); }
+        assert(s.drop_last().push(s.last()) =~= s);
+    }
+}
+/// split of a string without "//": every segment strictly between the first and the last is non-empty; the last one is empty iff the string
+/// is empty or ends in '/'
+pub proof fn lemma_split_inner_nonempty(s: Seq<u8>)
+    requires no_double_slash(s)
+    ensures
+        forall|i: int| 1 <= i < split(s, 0x2f).len() - 1 ==> (#[trigger] split(s, 0x2f)[i]).len() > 0,
+        (split(s, 0x2f).last().len() == 0) == (s.len() == 0 || s.last() == 0x2f),
+        split(s, 0x2f).len() >= 1,
+    decreases s.len()
+{
+    reveal_with_fuel(split, 2);
+    if s.len() > 0 {
+        let s0 = s.drop_last();
+        assert(no_double_slash(s0)) by {
+            assert forall|i: int| 0 <= i < s0.len() - 1 implies !(#[trigger] s0[i] == 0x2f && s0[i + 1] == 0x2f) by { assert(s0[i] == s[i] && s0[i + 1] == s[i + 1]); }
+        }
+        lemma_split_inner_nonempty(s0);
+        let rest = split(s0, 0x2f);
+        if s.last() == 0x2f {
+            let r = rest.push(Seq::<u8>::empty());
+            if s0.len() > 0 { assert(!(s[s.len() - 2] == 0x2f && s[s.len() - 2 + 1] == 0x2f)); assert(s0.last() == s[s.len() - 2]); }
+            assert forall|i: int| 1 <= i < r.len() - 1 implies (#[trigger] r[i]).len() > 0 by {
+                assert(r[i] == rest[i]);
+                if i == rest.len() - 1 { assert(rest.last().len() > 0); }
+            }
+        } else {
+            let r = rest.drop_last().push(rest.last().push(s.last()));
+            assert forall|i: int| 1 <= i < r.len() - 1 implies (#[trigger] r[i]).len() > 0 by { assert(r[i] == rest[i]); }
+        }
+    }
+}
+pub proof fn lemma_decode_nonempty(s: Seq<u8>, i: int)
+    requires 0 <= i < s.len(), decode_from(s, i, false) is Some
+    ensures decode_from(s, i, false)->Some_0.len() > 0
+{}
+pub proof fn lemma_normal_form_nonempty(s: Seq<u8>)
+    requires s.len() > 0, normal_form(s, false) is Some
+    ensures normal_form(s, false)->Some_0.len() > 0
+{
+    lemma_decode_nonempty(s, 0);
+    let d = decode_from(s, 0, false)->Some_0;
+    assert(encode(d) == enc1(d[0]) + encode(d.subrange(1, d.len() as int)));
+}
+pub open spec fn all_nonempty(st: Seq<Seq<u8>>) -> bool { forall|i: int| 0 <= i < st.len() ==> (#[trigger] st[i]).len() > 0 }
+pub open spec fn only_last_maybe_empty(st: Seq<Seq<u8>>) -> bool { forall|i: int| 0 <= i < st.len() - 1 ==> (#[trigger] st[i]).len() > 0 }
+pub open spec fn no_dots(st: Seq<Seq<u8>>) -> bool { forall|i: int| 0 <= i < st.len() ==> #[trigger] st[i] != DOT() && st[i] != DOTDOT() }
+/// standard mode: what resolve returns has non-empty segments except possibly the last, and contains no "." or ".."
+pub proof fn lemma_resolve_shape_std(segs: Seq<Seq<u8>>, i: int, stack: Seq<Seq<u8>>)
+    requires
+        1 <= i <= segs.len(),
+        forall|j: int| 1 <= j < segs.len() - 1 ==> (#[trigger] segs[j]).len() > 0,
+        i < segs.len() ==> all_nonempty(stack),
+        i == segs.len() ==> only_last_maybe_empty(stack),
+        no_dots(stack),
+        resolve(segs, i, stack, false) is Some,
+    ensures
+        only_last_maybe_empty(resolve(segs, i, stack, false)->Some_0),
+        no_dots(resolve(segs, i, stack, false)->Some_0),
+    decreases segs.len() - i
+{
+    if i < segs.len() {
+        let n = normal_form(segs[i], false)->Some_0;
+        if i < segs.len() - 1 { lemma_normal_form_nonempty(segs[i]); }
+        if n == DOT() {
+            lemma_resolve_shape_std(segs, i + 1, stack);
+        } else if n == DOTDOT() {
+            lemma_resolve_shape_std(segs, i + 1, stack.drop_last());
+        } else {
+            lemma_resolve_shape_std(segs, i + 1, stack.push(n));
+        }
+    }
+}
+pub proof fn lemma_resolve_fixed_std(segs: Seq<Seq<u8>>, i: int, stack: Seq<Seq<u8>>)
+    requires 0 <= i <= segs.len(), forall|j: int| i <= j < segs.len() ==> fixed_point(#[trigger] segs[j]) && segs[j] != DOT() && segs[j] != DOTDOT()
+    ensures resolve(segs, i, stack, false) == Some(stack + segs.subrange(i, segs.len() as int))
+    decreases segs.len() - i
+{
+    if i >= segs.len() {
+        assert(stack + segs.subrange(i, segs.len() as int) =~= stack);
+    } else {
+        lemma_resolve_fixed_std(segs, i + 1, stack.push(segs[i]));
+        assert(stack.push(segs[i]) + segs.subrange(i + 1, segs.len() as int) =~= stack + segs.subrange(i, segs.len() as int));
+    }
+}
+/// join of slash-free parts of which only the last may be empty (and the first is the empty leading part) contains no "//"
+pub proof fn lemma_join_no_double(parts: Seq<Seq<u8>>)
+    requires
+        parts.len() >= 1, parts[0].len() == 0,
+        forall|i: int| 0 <= i < parts.len() ==> no_byte(#[trigger] parts[i], 0x2f),
+        forall|i: int| 1 <= i < parts.len() - 1 ==> (#[trigger] parts[i]).len() > 0,
+    ensures
+        no_double_slash(join(parts, SLASH())),
+        parts.len() >= 2 && parts.last().len() > 0 ==> join(parts, SLASH()).len() > 0 && join(parts, SLASH()).last() != 0x2f,
+        parts.len() >= 2 && parts.last().len() == 0 ==> join(parts, SLASH()).len() > 0 && join(parts, SLASH()).last() == 0x2f,
+        parts.len() == 1 ==> join(parts, SLASH()).len() == 0,
+    decreases parts.len()
+{
+    reveal_with_fuel(join, 2);
+    if parts.len() >= 2 {
+        let pre = parts.drop_last();
+        assert(pre[0] == parts[0]);
+        assert forall|i: int| 0 <= i < pre.len() implies no_byte(#[trigger] pre[i], 0x2f) by { assert(pre[i] == parts[i]); }
+        assert forall|i: int| 1 <= i < pre.len() - 1 implies (#[trigger] pre[i]).len() > 0 by { assert(pre[i] == parts[i]); }
+        lemma_join_no_double(pre);
+        let a = join(pre, SLASH());
+        let l = parts.last();
+        let j = a + SLASH() + l;
+        if pre.len() >= 2 { assert(pre.last() == parts[parts.len() - 2]); assert(pre.last().len() > 0); }
+        assert forall|i: int| 0 <= i < j.len() - 1 implies !(#[trigger] j[i] == 0x2f && j[i + 1] == 0x2f) by {
+            if i + 1 < a.len() { assert(j[i] == a[i] && j[i + 1] == a[i + 1]); }
+            else if i + 1 == a.len() { assert(j[i] == a.last()); }
+            else if i == a.len() { if l.len() > 0 { assert(j[i + 1] == l[0]); } }
+            else { assert(j[i] == l[i - a.len() - 1]); }
+        }
+        if l.len() > 0 { assert(j.last() == l.last()); }
+    }
+}
+/// C09 (standard mode): canonicalising a canonical path changes nothing
+pub proof fn lemma_canon_path_idempotent_std(p: Seq<u8>)
+    requires canon_path(p, false) is Some
+    ensures canon_path(canon_path(p, false)->Some_0, false) == canon_path(p, false) //# C09 name=idempotent_in_standard_mode
+{
+    let c = canon_path(p, false)->Some_0;
+    if p.len() == 0 || p == SLASH() {
+    } else {
+        let q = collapse_slashes(p);
+        lemma_collapse_no_double(p);
+        lemma_collapse_slashes_basic(p);
+        let segs = split(q, 0x2f);
+        lemma_split_basic(q, 0x2f);
+        lemma_split_inner_nonempty(q);
+        let st = resolve(segs, 1, Seq::empty(), false)->Some_0;
+        lemma_resolve_all_fixed(segs, 1, Seq::empty(), false);
+        lemma_resolve_shape_std(segs, 1, Seq::empty());
+        if st.len() == 0 {
+        } else {
+            let parts = seq![Seq::<u8>::empty()] + st;
+            assert(c == join(parts, SLASH()));
+            assert forall|i: int| 0 <= i < parts.len() implies no_byte(#[trigger] parts[i], 0x2f) by { if i > 0 { assert(parts[i] == st[i - 1]); } }
+            assert forall|i: int| 1 <= i < parts.len() - 1 implies (#[trigger] parts[i]).len() > 0 by { assert(parts[i] == st[i - 1]); }
+            lemma_split_join(parts, 0x2f);
+            lemma_join_first_slash(parts);
+            lemma_join_no_double(parts);
+            lemma_collapse_identity(c);
+            if c == SLASH() {
+            } else {
+                let segs2 = split(c, 0x2f);
+                assert(segs2 == parts);
+                assert forall|j: int| 1 <= j < segs2.len() implies fixed_point(#[trigger] segs2[j]) && segs2[j] != DOT() && segs2[j] != DOTDOT() by { assert(segs2[j] == st[j - 1]); }
+                lemma_resolve_fixed_std(segs2, 1, Seq::empty());
+                assert(Seq::<Seq<u8>>::empty() + segs2.subrange(1, segs2.len() as int) =~= st);
+            }
+        }
+    }
+}
